@@ -1,0 +1,137 @@
+//! Verification hooks (cargo feature `verif-hooks`, off by default).
+//!
+//! `verif::atomic` offers drop-in wrappers over the std atomics that call a thread-local
+//! *yield hook* before every operation, so an external scheduler can explore the
+//! interleavings of the atomic steps of concurrent operations. Without an installed hook
+//! the wrappers behave exactly like the std types.
+
+use std::cell::RefCell;
+
+thread_local! {
+    static YIELD_HOOK: RefCell<Option<Box<dyn Fn(&'static str) -> bool>>> = const { RefCell::new(None) };
+}
+
+/// Installs (or removes) the yield hook of the calling thread.
+///
+/// The hook receives the name of the atomic operation about to be performed. Its return
+/// value is only used for `compare_exchange_weak`: `true` makes that call fail spuriously.
+pub fn set_yield_hook(hook: Option<Box<dyn Fn(&'static str) -> bool>>) {
+    YIELD_HOOK.with(|h| *h.borrow_mut() = hook);
+}
+
+/// Calls the yield hook of the calling thread, if any.
+pub fn yield_point(op: &'static str) -> bool {
+    YIELD_HOOK.with(|h| match h.try_borrow() {
+        Ok(g) => match g.as_ref() {
+            Some(f) => f(op),
+            None => false,
+        },
+        Err(_) => false,
+    })
+}
+
+/// Instrumented atomics.
+pub mod atomic {
+    use super::yield_point;
+    pub use std::sync::atomic::Ordering;
+
+    macro_rules! instrumented {
+        ($name:ident, $std:ty, $int:ty) => {
+            /// Wrapper over the std atomic that yields to the scheduler before every operation.
+            #[derive(Debug, Default)]
+            pub struct $name($std);
+
+            impl $name {
+                /// See the std type.
+                pub const fn new(v: $int) -> Self {
+                    Self(<$std>::new(v))
+                }
+                /// See the std type.
+                pub fn load(&self, o: Ordering) -> $int {
+                    yield_point("load");
+                    self.0.load(o)
+                }
+                /// See the std type.
+                pub fn store(&self, v: $int, o: Ordering) {
+                    yield_point("store");
+                    self.0.store(v, o)
+                }
+                /// See the std type.
+                pub fn swap(&self, v: $int, o: Ordering) -> $int {
+                    yield_point("swap");
+                    self.0.swap(v, o)
+                }
+                /// See the std type.
+                pub fn fetch_add(&self, v: $int, o: Ordering) -> $int {
+                    yield_point("fetch_add");
+                    self.0.fetch_add(v, o)
+                }
+                /// See the std type.
+                pub fn fetch_sub(&self, v: $int, o: Ordering) -> $int {
+                    yield_point("fetch_sub");
+                    self.0.fetch_sub(v, o)
+                }
+                /// See the std type.
+                pub fn fetch_max(&self, v: $int, o: Ordering) -> $int {
+                    yield_point("fetch_max");
+                    self.0.fetch_max(v, o)
+                }
+                /// See the std type.
+                pub fn fetch_min(&self, v: $int, o: Ordering) -> $int {
+                    yield_point("fetch_min");
+                    self.0.fetch_min(v, o)
+                }
+                /// See the std type.
+                pub fn compare_exchange(
+                    &self,
+                    current: $int,
+                    new: $int,
+                    success: Ordering,
+                    failure: Ordering,
+                ) -> Result<$int, $int> {
+                    yield_point("compare_exchange");
+                    self.0.compare_exchange(current, new, success, failure)
+                }
+                /// See the std type. Fails spuriously only when the yield hook says so.
+                pub fn compare_exchange_weak(
+                    &self,
+                    current: $int,
+                    new: $int,
+                    success: Ordering,
+                    failure: Ordering,
+                ) -> Result<$int, $int> {
+                    if yield_point("compare_exchange_weak") {
+                        return Err(self.0.load(failure));
+                    }
+                    self.0.compare_exchange(current, new, success, failure)
+                }
+                /// See the std type: a load followed by a compare-exchange loop.
+                pub fn fetch_update<F>(
+                    &self,
+                    set_order: Ordering,
+                    fetch_order: Ordering,
+                    mut f: F,
+                ) -> Result<$int, $int>
+                where
+                    F: FnMut($int) -> Option<$int>,
+                {
+                    let mut prev = self.load(fetch_order);
+                    while let Some(next) = f(prev) {
+                        match self.compare_exchange_weak(prev, next, set_order, fetch_order) {
+                            x @ Ok(_) => return x,
+                            Err(next_prev) => prev = next_prev,
+                        }
+                    }
+                    Err(prev)
+                }
+                /// Reads the value without yielding (for the scheduler's own invariant checks).
+                pub fn peek(&self) -> $int {
+                    self.0.load(Ordering::SeqCst)
+                }
+            }
+        };
+    }
+
+    instrumented!(AtomicU64, std::sync::atomic::AtomicU64, u64);
+    instrumented!(AtomicUsize, std::sync::atomic::AtomicUsize, usize);
+}
